@@ -7,7 +7,8 @@ for m in sorted(glob.glob(os.path.join(V, "seeded", "*", "meta.json"))):
     d = json.load(open(m))
     name = os.path.basename(os.path.dirname(m))
     det = ", ".join(d.get("detected_by") or []) or "**missed**"
-    rows.append("| %s | %s | %s | %s | %s |" % (name, d["property"], det, d.get("needs_to_manifest", "").replace("|", "\\|"), d.get("note", "").replace("|", "\\|")))
+    note = d.get("note", "") + ((" RETIRED: " + d["retired"]) if d.get("retired") else "")
+    rows.append("| %s | %s | %s | %s | %s |" % (name, d["property"], det, d.get("needs_to_manifest", "").replace("|", "\\|"), note.replace("|", "\\|")))
 out = ["# Seeded changes", "",
        "Each directory holds an independently authored change (`patch.diff`) that breaks the named property while compiling and passing the existing tests,",
        "its demonstration (`demo/`, exit 0 = property holds), the author's notes and `meta.json` (what it needs to manifest, what was run to confirm it, which checks report it).",
